@@ -11,7 +11,7 @@ MODULES = ["GroupbyVerif.Props.C19"]
 RULE = ("STATIC: the effect table of every function of groupby_lib (local in-place writes, calls with per-parameter aliases) is re-extracted from the source "
         "and the Lean certificate check proves that no public entry point reaches a write through a parameter or into a state buffer. DYNAMIC: seeded random "
         "histories of 1-3 operations on one grouping (all GroupBy reductions incl. transform, var/std/median/quantile/apply/agg/ratio/subset_ratio/density, "
-        "cumulative, rolling, shift/diff, ema plain and timed, head/tail/nth (n = 2 or n = number of rows: the identity selection), groups, group_nearby_members; crosstab, top-level ema/ema_grouped, nanops, "
+        "cumulative, rolling, shift/diff, ema plain and timed, head/tail/nth, groups, group_nearby_members; crosstab, top-level ema/ema_grouped, nanops, "
         "factorize_1d/2d, monotonic / chunked key routes with thresholds scaled) x key containers {ndarray, strided view, pd.Series (indexed, arrow-backed), "
         "pd.Index, Categorical, pl.Series, pa.Array/ChunkedArray/Dictionary, zero-copy arrow over numpy, list} x value containers {ndarray, strided view, "
         "read-only ndarray, pd.Series, arrow-backed and chunked Series, pd.Index, pl.Series, pa arrays, zero-copy arrow over numpy, DataFrame, list, dict} x "
@@ -110,7 +110,7 @@ def gen_cases(tier, rng):
             mask = dict(kind="pos", pos=[rng.randrange(-n, n) for _ in range(rng.randint(0, n + 1))])
         yield dict(n=n, keys=keys, kdts=kdts, kconts=kconts, kchunks=[_chunks(rng, n) for _ in kdts], vals=vals, vdt=vdt, vcont=vcont, vchunks=_chunks(rng, n),
                    mask=mask, history=history, sort=rng.random() < 0.8, small_threshold=rng.random() < 0.3, threads=rng.choice([1, 1, 3]),
-                   indexed=rng.random() < 0.5, rowsel_all=rng.random() < 0.5)
+                   indexed=rng.random() < 0.5)
 
 
 def build_key(col, kd, cont, chunks, name, index):
@@ -320,8 +320,7 @@ def evaluate(case, drv):
         if op == "ema_timed":
             return gb.ema(values, halflife="2s", times=times, mask=mk)
         if op in ("head", "tail"):
-            # n = 2, or n = number of rows: every row is then selected, in order (the positional take is the identity)
-            return getattr(gb, op)(values, max(case["n"], 1) if case.get("rowsel_all") else 2, keep_input_index=True)
+            return getattr(gb, op)(values, 2, keep_input_index=True)
         if op == "nth":
             return gb.nth(values, 1, keep_input_index=True)
         if op == "nearby":
